@@ -181,13 +181,19 @@ CHECKS = {
    text="Machine-checked proof (Coq) on an interleaving model of abandonment/adoption (one transition per atomic access; unbounded threads, segments, "
         "steps): the invariant is inductive; at most one thread owns or visits a segment (owned xor marked abandoned xor in exactly one visitor's "
         "hand); adoption only within the sub-process; pages of abandoned segments are NEVER_DELAYED_FREE so remote frees go to the page list; "
-        "abandon/reclaim never write block memory. NAMED PARTIAL: 'a forced collect from quiescence leaves no dead abandoned segment' and the "
-        "abandoned_count accounting are stated (Proofs/AbandonOpen.v) and simulated, not proved. Tie: the scheduler harness runs the real allocator "
-        "in virtual threads that terminate through mi_thread_done with live blocks (reclaim-on-free on/off, arena and OS-list segments); survivors "
-        "verify the byte patterns and free them; at quiescence a forced collect must leave no abandoned segment and no block.",
-   note="The model-to-code tie is the implementation oracle under the deterministic scheduler (no step-lockstep); thread exit through the pthread key "
-        "destructor is covered by the pinned suite only; arena visit lock and os_list_count are not modelled.",
-   technique="Coq inductive invariant with ghost holder on a small-step model + deterministic-scheduler oracle on the real code",
+        "abandon/reclaim never write block memory; along every trace a segment is adopted once between two abandonments and the adopter holds "
+        "it afterwards; abandoned_count equals the marked segments plus the corrections in flight in every reachable state and is exact at "
+        "quiescence. NAMED OPEN: 'a forced collect from quiescence leaves no dead abandoned segment' is stated (Proofs/AbandonOpen.v, "
+        "C09_full_collect_frees_dead_abandoned) and exercised, not proved. Tie: (1) the scheduler harness runs the real allocator in virtual "
+        "threads that terminate through mi_thread_done with live blocks (reclaim-on-free on/off, arena and OS-list segments, force-abandon, two "
+        "bitmap fields); survivors verify the byte patterns and free them; at quiescence no abandoned segment, no block and no claimed arena block "
+        "may remain; (2) schedule-lockstep: every hooked access to thread_id, the abandoned bit, abandoned_count and the OS-list locks must be a "
+        "transition of the model (inv_b after every step); (3) every ordering of thread terminations (real pthread exit) and frees/adoptions for "
+        "3 workers in four configurations (harness/t_exitorder.c).",
+   note="Per-page state of an abandoned segment is re-synchronised from the real pages in the lockstep, not followed step by step; the arena "
+        "visit lock and os_list_count are logged but not modelled; which segment a cursor examines is an oracle argument of the model (an omitted "
+        "visit is found by the leak oracles, not by the lockstep).",
+   technique="Coq inductive invariant and trace theorems on a small-step model + schedule-lockstep + deterministic-scheduler oracles + exhaustive exit/adoption orders on the real code",
    design="3/C09"),
  "C18": dict(
    text="Machine-checked proof (Coq 8.16.1) over executable Gallina models of mi_segment_commit_mask / schedule_purge / try_purge / purge, "
@@ -304,7 +310,7 @@ def main():
       "hooks": {"guard": "MI_VERIF_HOOKS",
                 "enable": "harness command line only: -DMI_VERIF_HOOKS='\"/verif/harness/hooks.h\"' (the library build is never hooked)",
                 "baseline_off_cmd": "cmake --build /repo/_build && ctest --test-dir /repo/_build -j8 --timeout 900",
-                "source_commits": [], "add_only": True},
+                "source_commits": ["1dc72ba"], "add_only": True},
       "engines": [{"name": "coq+differential", "path": "tools/check", "serves_properties": sorted(CHECKS),
                    "kind_free_text": "Coq 8.16.1 theorems over hand-written Gallina models; Gen/*.v regenerated from /repo; extracted OCaml model vs C harness (static.c TU) differential"}],
       "checks": checks,
